@@ -200,11 +200,18 @@ def alternatives_match(impl, spec):
     return len(ia) == len(sb) and all(x in y.split("|") for x, y in zip(ia, sb))
 
 
+MODEL_ONLY_PREFIXES = ()   # set per run from the generator module (ops borrowed from another property's family)
+
+
 def classify(r):
     """-> None (agree) | 'spec' (impl contradicts the property's own demand on an input inside the
     quantifier) | 'model' (impl differs from the model: correspondence broken) | 'note'"""
     if r["impl"] == "skip":
         return None
+    if MODEL_ONLY_PREFIXES and r["case"].startswith(MODEL_ONLY_PREFIXES):
+        # a case borrowed from another property's op family: that property's own specification is judged by its own
+        # check; here only the tie to the model counts (e.g. C04 observes the ORDER of maps other operations produce)
+        return None if r["impl"] == r["model"] else "model"
     wf = r["wf"]
     if wf == "2":
         return None if r["impl"] == r["model"] else "note"
@@ -276,7 +283,11 @@ def shrink(prop, r, kind, budget=150, valid=None):
                 continue
             steps += len(cands)
             rs = run_cases(prop, cands, tag="shrink", shards=4)
-            hit = [x for x in rs if classify(x) == kind and "bad-op" not in x["impl"] and "bad-op" not in x["model"]]
+            # a shrunk case must fail the SAME way: never accept a candidate on which either side only reports that
+            # the case line itself is malformed (bad-op, the generators' own cross-checks, pool / skip markers)
+            junk = ("bad-op", "gen-vlq-mismatch", "bad-op-case", "pool-mismatch", "pool-missing", "skip")
+            hit = [x for x in rs if classify(x) == kind and not any(j in x["impl"] or j in x["model"] for j in junk)
+                   and x["impl"].split(" ")[0] == r["impl"].split(" ")[0]]
             if hit:
                 best = min(hit, key=lambda x: len(x["case"]))
                 improved = True
@@ -301,9 +312,24 @@ def finding_for(prop, case, cls=None):
     for f in load_findings():
         if f.get("property") != prop or f.get("status") != "open":
             continue
-        if f.get("key") == case or (cls is not None and f.get("class") == cls):
+        if f.get("class"):
+            if cls is not None and f.get("class") == cls:
+                return f
+        elif f.get("key") == case:
             return f
     return None
+
+
+def safe_class(mod, r, kind):
+    """the generator module's failure class of a failing result; a case line the classifier cannot read (e.g. one the
+    shrinker mangled) simply has no class"""
+    fc = getattr(mod, "finding_class", None)
+    if not fc:
+        return None
+    try:
+        return fc(r, kind)
+    except Exception:
+        return None
 
 
 def write_replay(prop, name, payload):
@@ -342,6 +368,8 @@ def run_check(mod, tier, seed, replay=None):
     from rng import Rng
     t0 = time.time()
     prop = mod.PROP
+    global MODEL_ONLY_PREFIXES
+    MODEL_ONLY_PREFIXES = tuple(getattr(mod, "MODEL_ONLY_PREFIXES", ()))
     violations = []  # (kind, text, replay payload)
     notes = []
     known = []
@@ -436,8 +464,7 @@ def run_check(mod, tier, seed, replay=None):
             if len(notes) < 5:
                 notes.append(r)
             continue
-        fc = getattr(mod, "finding_class", None)
-        f = finding_for(prop, r["case"], fc(r, k) if fc else None)
+        f = finding_for(prop, r["case"], safe_class(mod, r, k))
         if f:
             known.append((f, r))
             continue
@@ -453,7 +480,7 @@ def run_check(mod, tier, seed, replay=None):
             continue
         first = min(fails[:50], key=lambda x: len(x["case"]))
         small = shrink(prop, first, k, valid=getattr(mod, "valid_case", None)) if not replay else first
-        if finding_for(prop, small["case"], getattr(mod, "finding_class", lambda r, k: None)(small, k)):
+        if finding_for(prop, small["case"], safe_class(mod, small, k)):
             small = first
         payload = {"property": prop, "kind": "impl-vs-spec (the real code contradicts the property on this input)" if k == "spec" else "impl-vs-model (correspondence between the Lean model and the code is broken; the theorems no longer speak about this code)",
                    "case": small["case"], "impl": small["impl"], "model": small["model"], "spec": small["spec"], "wf": small["wf"],
